@@ -1041,6 +1041,8 @@ class C16(Prop):
       for t in ts:
         by_trial.setdefault(t, set()).add(groups[w])
     multi = sorted(t for t, gs in by_trial.items() if len(gs) > 1)
+    if len(set(ids)) != len(ids):
+      return {'signature': 'ids', 'what': 'trial ids of the study are %s (an id is used twice)' % ids}
     fed_log = obs['fed'] or []
     if (obs['nstudies'] > 1 or obs['clones']) and (
         multi or obs['clones'] or obs['proposals'] != n or len(fed_log) != len(set(fed_log))):
